@@ -53,9 +53,10 @@ func c10(r *core.Run) {
 		r.Set("processes_per_program", int64(passes))
 		r.Require("programs_generated", 50)
 		r.Require("runs", 1000)
+		r.Require("planted_inheritance_chains", 20)
 	}
 	r.Assumption("map-iteration nondeterminism is explored by repetition within a process, by fresh processes (new hash seeds) and by forcing link orders through the verif-tagged hook")
-	r.FinishStd("valid multi-file programs biased to many includes, name reuse across files and directories, file names equal to imported runtime packages, go.* annotations, constants of map/set/struct type; each generated (random option set: zap, strict enum text, no-recurse, single output file) 5 (quick) or 9 times in one process, under 8/16 forced link orders, and in 2/3 separate processes; sha256 of every output path+content and of the canonically relabelled plugin request must be identical, and success/failure must agree. non-trivial: every program, distinct by (digest, root text)", "cases")
+	r.FinishStd("every sixth program is a hand-built service inheritance chain across 3-5 modules that include only their successor, beside 1-3 sibling modules including a deep module directly (13 natural-order runs each); the others are valid multi-file programs biased to many includes, name reuse across files and directories, file names equal to imported runtime packages, go.* annotations, constants of map/set/struct type; each generated (random option set: zap, strict enum text, no-recurse, single output file) 5 (quick) or 9 times in one process, under 8/16 forced link orders, and in 2/3 separate processes; sha256 of every output path+content and of the canonically relabelled plugin request must be identical, and success/failure must agree. non-trivial: every program, distinct by (digest, root text)", "cases")
 }
 
 func inputOf(v string) string {
